@@ -68,11 +68,17 @@ class Driver:
     def __init__(self):
         self.models = {}        # m -> (Model, cls, scale)
         self.agents = {}        # (id, ser) -> Agent
+        self.envs = {}          # m -> environment object that is not (yet) installed in its model
         self.comp_ids = {}      # id(component) -> ((id, ser), serial)
         self.keep = []          # keep components alive so id() stays unique
         self.events = []
 
     # ---------------- helpers ----------------
+    def env(self, m):
+        """The environment object of model m - for a model created with `late` it is only installed by the op `install`."""
+        e = self.envs.get(m)          # NB: an empty environment is falsy (len == 0)
+        return e if e is not None else self.models[m][0].environment
+
     def scale(self, m):
         return 4.0 if self.models[m][1] == "space" else 1
 
@@ -107,7 +113,7 @@ class Driver:
         """The model in whose environment the agent currently is (None if nowhere), through the public lookup."""
         ag = self.agents[tuple(a)]
         for m, (mod, _, _) in self.models.items():
-            if mod.environment.get_agent(ag.id) is ag:
+            if self.env(m).get_agent(ag.id) is ag:
                 return m
         return None
 
@@ -117,7 +123,7 @@ class Driver:
         self.nobs = getattr(self, "nobs", 0) + 1
         ask_all = self.nobs % 3 != 2          # the unfiltered listing is not asked after every single call
         for m, (mod, cls, _) in self.models.items():
-            envr = mod.environment
+            envr = self.env(m)
             ids = sorted({k[0] for k in self.agents})
             by_id = []
             for i in ids:
@@ -171,9 +177,13 @@ class Driver:
         self.events.append(ev)
 
     # ---------------- operations ----------------
-    def op_model(self, m, cls, ext, wrap):
+    def op_model(self, m, cls, ext, wrap, late=False):
+        from ECAgent.Core import Environment
         mod = Model(seed=len(self.models) + 1)
         kind = "plain"
+        envr = None
+        if cls == "plain" and late:
+            envr = Environment(mod)
         if cls != "plain":
             W, H, D = ext
             if cls == "space":
@@ -190,10 +200,26 @@ class Driver:
                 kind = "grid"
             else:
                 raise AssertionError(cls)
-            mod.set_environment(envr)
+        if envr is not None:
+            if late:
+                self.envs[m] = envr          # populated first, installed later with the op `install`
+            else:
+                mod.set_environment(envr)
         self.models[m] = (mod, "space" if cls == "space" else cls, kind)
         self.emit({"op": "new_model", "m": m, "kind": kind, "cls": cls, "ext": list(ext) if cls != "plain" else [0, 0, 0],
                    "wrap": bool(wrap) if cls != "plain" else False})
+
+    def op_install(self, m):
+        """model.set_environment(env) for an environment that may already hold agents; nothing observable may change."""
+        envr = self.envs.pop(m, None)
+        if envr is None:
+            return
+        exc = None
+        try:
+            self.models[m][0].set_environment(envr)
+        except Exception as e:  # noqa: BLE001
+            exc = e
+        self.emit({"op": "install", "m": m}, exc)
 
     def op_agent(self, a, m, tag):
         a = tuple(a)
@@ -242,7 +268,7 @@ class Driver:
     def op_join(self, a, p, target=None):
         ag = self.agents[tuple(a)]
         m = target or self.model_of(a)
-        envr = self.models[m][0].environment
+        envr = self.env(m)
         exc = None
         try:
             if self.models[m][1] == "plain":
@@ -256,7 +282,7 @@ class Driver:
     def op_leave(self, m, i):
         exc = None
         try:
-            _m(self.models[m][0].environment, "remove_agent", "removeAgent")(i)
+            _m(self.env(m), "remove_agent", "removeAgent")(i)
         except Exception as e:  # noqa: BLE001
             exc = e
         self.emit({"op": "leave", "m": m, "id": i}, exc)
@@ -265,7 +291,7 @@ class Driver:
         exc = None
         res = ["None", 0]
         try:
-            ga = _m(self.models[m][0].environment, "get_agent", "getAgent")
+            ga = _m(self.env(m), "get_agent", "getAgent")
             r = ga(i, throw_error=True) if strict else ga(i)
             if r is not None:
                 res = self.obj_of(r)
@@ -274,7 +300,7 @@ class Driver:
         self.emit({"op": "lookup", "m": m, "id": i, "strict": bool(strict), "res": res}, exc)
 
     def _all_positioned(self, m):
-        return all(PositionComponent in a for a in self.models[m][0].environment)
+        return all(PositionComponent in a for a in self.env(m))
 
     def op_move(self, a, d):
         ag = self.agents[tuple(a)]
@@ -283,7 +309,7 @@ class Driver:
             return
         exc = None
         try:
-            self.models[m][0].environment.move(ag, *[self.to_py(m, v) for v in d])
+            self.env(m).move(ag, *[self.to_py(m, v) for v in d])
         except Exception as e:  # noqa: BLE001
             exc = e
         after = [0, 0, 0]
@@ -298,24 +324,30 @@ class Driver:
             return
         exc = None
         try:
-            self.models[m][0].environment.move_to(ag, *[self.to_py(m, v) for v in p])
+            self.env(m).move_to(ag, *[self.to_py(m, v) for v in p])
         except Exception as e:  # noqa: BLE001
             exc = e
         self.emit({"op": "move_to", "a": list(a), "p": list(p)}, exc)
 
-    def op_agents_at(self, m, q, l, al):
+    def op_agents_at(self, m, q, l, al, quarters=False):
+        """quarters: in a grid world the query point and the leeways are given in quarter cells (fractional queries)."""
         if self.models[m][1] == "plain" or not self._all_positioned(m):
             return      # a resident without position (known finding F2) makes the query crash: not part of C12's claim
+        conv = (lambda v: v / 4.0) if (quarters and self.scale(m) == 1) else (lambda v: self.to_py(m, v))
         exc = None
-        res = []
+        res, res2 = [], []
         try:
-            r = self.models[m][0].environment.get_agents_at(*[self.to_py(m, v) for v in q], leeway=self.to_py(m, l),
-                                                            x_leeway=self.to_py(m, al[0]), y_leeway=self.to_py(m, al[1]),
-                                                            z_leeway=self.to_py(m, al[2]))
+            args = [conv(v) for v in q]
+            kw = dict(leeway=conv(l), x_leeway=conv(al[0]), y_leeway=conv(al[1]), z_leeway=conv(al[2]))
+            r = self.env(m).get_agents_at(*args, **kw)
             res = [self.obj_of(x) for x in r]
+            r.clear()                         # the caller may edit the list it got ...
+            r.append(None)
+            res2 = [self.obj_of(x) for x in self.env(m).get_agents_at(*args, **kw)]     # ... and ask the same question again
         except Exception as e:  # noqa: BLE001
             exc = e
-        self.emit({"op": "agents_at", "m": m, "q": list(q), "l": l, "al": list(al), "res": res}, exc)
+        self.emit({"op": "agents_at", "m": m, "q": list(q), "l": l, "al": list(al), "res": res, "res2": res2,
+                   "qs": 4 if (quarters and self.scale(m) == 1) else 1}, exc)
 
     def op_move_sat(self, ext, start, dirs):
         """A separate continuous, non-wrapping world with arbitrary float extents: move far beyond / below / not at all per axis
@@ -345,7 +377,7 @@ class Driver:
         exc = None
         res = []
         try:
-            r = mod.environment.get_dimensions()
+            r = self.env(m).get_dimensions()
             r = r if isinstance(r, tuple) else (r,)
             res = [self.to_units(m, v) for v in r]
         except Exception as e:  # noqa: BLE001
@@ -381,7 +413,7 @@ class Driver:
         exc = None
         res = []
         try:
-            r = _m(self.models[m][0].environment, "get_agents", "getAgents")(*args, **kw)
+            r = _m(self.env(m), "get_agents", "getAgents")(*args, **kw)
             res = [self.obj_of(x) for x in r]
             r.clear()                  # the caller may modify the returned list
             r.append(None)
@@ -399,7 +431,7 @@ class Driver:
             state = mod.random.getstate()
             for k in range(nseeds):
                 mod.random.seed(1000003 * k + 17)
-                r = _m(mod.environment, "get_random_agent", "getRandomAgent")(*args, **kw)
+                r = _m(self.env(m), "get_random_agent", "getRandomAgent")(*args, **kw)
                 o = ["None", 0] if r is None else self.obj_of(r)
                 if o not in picks:
                     picks.append(o)
@@ -414,7 +446,7 @@ class Driver:
         exc = None
         res = []
         try:
-            r = self.models[m][0].environment.shuffle(*args, **kw)
+            r = self.env(m).shuffle(*args, **kw)
             res = [self.obj_of(x) for x in r]
             r.clear()
         except Exception as e:  # noqa: BLE001
@@ -462,7 +494,7 @@ def delta_pool(e, fine):
 
 
 def random_run(rng, *, kinds=("plain",), n_models=2, n_ids=3, length=40, mods="clean", spatial=True,
-               queries=True, lookups=True, tags=(None, None, 0, 1, 7), weights=None, nseeds=0, guests=False):
+               queries=True, lookups=True, tags=(None, None, 0, 1, 7), weights=None, nseeds=0, guests=False, late_install=False):
     """Returns (program, events).  mods: 'clean' = never touch components of resident agents;
     'sanctioned' = residents only with the explicit (de)register calls; 'any' = also without them."""
     d = Driver()
@@ -473,11 +505,15 @@ def random_run(rng, *, kinds=("plain",), n_models=2, n_ids=3, length=40, mods="c
         getattr(d, "op_" + op[0])(*op[1:])
 
     worlds = {}
+    pending_install = []
     for k in range(n_models):
         m = f"m{k + 1}"
         cls, ext, wrap = rng.choice(WORLD_MENU[rng.choice(kinds)])
         worlds[m] = (cls, ext, wrap)
-        do(["model", m, cls, ext, wrap])
+        late = late_install and rng.random() < 0.5
+        do(["model", m, cls, ext, wrap, late])
+        if late:
+            pending_install.append(m)
     ids = ["x", "y", "z", "w", "v", "u"][:n_ids]
     objs = {m: [] for m in worlds}
     serial = {}
@@ -508,7 +544,9 @@ def random_run(rng, *, kinds=("plain",), n_models=2, n_ids=3, length=40, mods="c
     def resident(a):
         return d.where(a) is not None
 
-    for _ in range(length):
+    for step_no in range(length):
+        if pending_install and (rng.random() < 0.12 or step_no == length - 3):
+            do(["install", pending_install.pop()])
         m = rng.choice(list(worlds))
         cls, ext, wrap = worlds[m]
         fine = cls == "space"
@@ -562,7 +600,11 @@ def random_run(rng, *, kinds=("plain",), n_models=2, n_ids=3, length=40, mods="c
         elif op == "agents_at" and cls != "plain":
             q = [rng.choice(coord_pool(e, fine)[:9]) for e in ext]
             lw = [-1, 0, 0, 1, 2, 4, 7]
-            do(["agents_at", m, q, rng.choice(lw), [rng.choice(lw) for _ in range(3)]])
+            if not fine and rng.random() < 0.4:      # grid world: fractional query point / leeways, in quarter cells
+                lw4 = [-2, 0, 1, 2, 3, 4, 6, 10]
+                do(["agents_at", m, [4 * v + rng.choice([0, 0, 1, 2, 3, -2]) for v in q], rng.choice(lw4), [rng.choice(lw4) for _ in range(3)], True])
+            else:
+                do(["agents_at", m, q, rng.choice(lw), [rng.choice(lw) for _ in range(3)]])
         elif op in ("get_agents", "pick", "shuffle"):
             tpl = rng.sample(["A", "B", "C", "D", "Z"], rng.choice([0, 0, 1, 1, 2, 3]))
             if tpl and rng.random() < 0.2:
